@@ -54,6 +54,9 @@ fixed('F19', ['C10'], 'A21w', 'adsg_core.optimization.assign_enc.eager.imputatio
 known('F7', ['C07', 'C03'], 'A6', 'adsg_core.optimization.assign_enc.encoding:EagerEncoder.get_matrix:A6:raw-vector-returned:return (list(vector) + extra_vector, matrix[i_mat, :, :])',
       'on a direct hit the eager encoder returns the input vector instead of the stored -1-marked one, so conditionally inactive variables are reported active (30 vectors in witness/w07)',
       'witness/w07', 'returning the stored vector changes what is_valid_vector(get_matrix(x)[0]) answers and breaks 6 existing tests; not a small repair')
+known('F20', ['C14'], 'A5l', 'adsg_core.optimization.hierarchy.fast:FastHierarchyAnalyzer._get_selection_choice_is_forced:A5l:collapse-only-if-representative-always-active',
+      'the fast encoder gives every LINKED choice but the first no variable; when the first one is inactive the others are still free, so admitted architectures are unreachable (P[A,B], Q[C,D], L1 under A, L2 under C, LINKED(L1,L2): {B,C,c2} is admitted, reachable with the complete encoder, not with the fast one - witness/w20)',
+      'witness/w20', 'restricting the collapse to a permanent first choice breaks test_conditionally_active_constrained_fast (first choice conditional but implied by the others); the exact condition is an activation-implication analysis, not a small repair')
 known('F12', ['C13', 'C01'], 'A15', 'adsg_core.optimization.hierarchy.complete:HierarchyAnalyzer._reduced_selection_choice_scenarios:A15:constraint-order-flow',
       'order-sensitive choice constraints are applied in influence-matrix column order; the order of constraint.nodes is never read (NoOptionError decoding a listed valid vector for UNORDERED across hierarchy levels)',
       'witness/w11', 'the repair needs the scenario merging to carry the constraint order through; not small')
